@@ -108,7 +108,7 @@ func (c *Ctx) MapDedup(fn *ssa.Function, keyGlob string, tgt Target, what string
 		for _, b := range fn.Blocks {
 			for _, ins := range b.Instrs {
 				mu, ok := ins.(*ssa.MapUpdate)
-				if !ok || Resolve(mu.Map) != h.m {
+				if !ok || (Resolve(mu.Map) != h.m && Canon(mu.Map) != Canon(h.m)) {
 					continue
 				}
 				if CanonD(mu.Key, 9) == h.key {
